@@ -19,6 +19,7 @@ import (
 	"runtime"
 	"runtime/debug"
 	"sort"
+	"strconv"
 	"strings"
 	"sync"
 	"time"
@@ -713,6 +714,17 @@ func Zero[T any](p *T) { var z T; *p = z }
 // Serve runs scenarios read from stdin, one JSON object per line, forever.
 func Serve(mainFn func(), reset func()) {
 	debug.SetMaxStack(768 << 20)
+	// Optional explicit collection every N runs (SIMRT_GC_EVERY); measured to make no
+	// difference on this machine, so the automatic collector is the default.
+	gcEvery := 0
+	if v, err := strconv.Atoi(os.Getenv("SIMRT_GC_EVERY")); err == nil {
+		gcEvery = v
+	}
+	if gcEvery > 0 {
+		debug.SetGCPercent(-1)
+		debug.SetMemoryLimit(3 << 30)
+	}
+	nRuns := 0
 	in := bufio.NewReaderSize(os.Stdin, 1<<20)
 	realOut, realErr := os.Stdout, os.Stderr
 	outPath, errPath := os.Getenv("SIMRT_OUT"), os.Getenv("SIMRT_ERR")
@@ -739,6 +751,10 @@ func Serve(mainFn func(), reset func()) {
 			w.Flush()
 			if res.Retire {
 				os.Exit(0)
+			}
+			nRuns++
+			if gcEvery > 0 && nRuns%gcEvery == 0 {
+				runtime.GC()
 			}
 		}
 		if err != nil {
